@@ -258,3 +258,114 @@ class RunLoop:
             except BaseException:  # noqa: BLE001
                 pass
         return steps
+
+
+# ---------------------------------------------------------------------------------------------------------------
+# Re-used request objects (C14 family "reused-objects"; added for the client half of A3).
+#
+# Everything above hands a FRESH request object to the client for every exchange.  A script may just as well keep one
+# request object and send it again -- unchanged, or with another content assigned through the public API of the
+# class (`RawRequest.pdu = ...`, `ReadDataByIdentifierRequest.data_identifier = ...`, the plain public attributes of
+# the typed requests).  The functions below send such objects; what is recorded as "the request" of a step is what
+# really went to the ECU (the bytes the transport wrote / `request.pdu` at the time of the exchange), and the client's
+# verdict is the one it gave for THAT exchange with THAT object.
+def public_field_names(obj: Any) -> list[str]:
+    """The fields a holder of `obj` can assign: public instance attributes, then public properties with a setter."""
+    names = [n for n in vars(obj) if not n.startswith("_")]
+    for klass in type(obj).__mro__:
+        for n, d in vars(klass).items():
+            if isinstance(d, property) and d.fset is not None and not n.startswith("_") and n not in names:
+                names.append(n)
+    return names
+
+
+def assign_content(target: Any, pdu: bytes) -> bool:
+    """Give the request object `target` the content `pdu` through its public API.  A RawRequest gets its `pdu`
+    assigned; a typed request gets every public field of a freshly parsed request of the SAME class assigned.
+    False (nothing is claimed about the object, do not send it) if the class differs, if the class does not allow the
+    assignment, or if the object's bytes are not `pdu` afterwards (the byte layout of assigned fields is C01's subject)."""
+    import copy
+
+    try:
+        if isinstance(target, service.RawRequest):
+            target.pdu = bytes(pdu)
+        else:
+            src = service.UDSRequest.parse_dynamic(bytes(pdu))
+            if type(src) is not type(target):
+                return False
+            for n in public_field_names(src):
+                setattr(target, n, copy.deepcopy(getattr(src, n)))
+        return bytes(target.pdu) == bytes(pdu)
+    except Exception:  # noqa: BLE001
+        return False
+
+
+def verdict_for_object(reply: bytes | None, request: Any) -> str:
+    """c13_ecu.client_verdict for a request OBJECT the caller holds (not a fresh RawRequest made from its bytes)."""
+    from gallia.services.uds import helpers
+
+    if reply is None:
+        return "silent"
+    try:
+        helpers.parse_pdu(reply, request)
+        return "ok"
+    except RequestResponseMismatch:
+        return "Mismatch"
+    except MalformedResponse:
+        return "Malformed"
+    except Exception as e:  # noqa: BLE001
+        return type(e).__name__
+
+
+class ObjectSender:
+    """Sends request objects a caller keeps and re-uses, (a) through the real UDSClient.request() in-process, or
+    (b) `direct`: straight to handle_request, the reply judged by helpers.parse_pdu(reply, <that object>).
+    One step per exchange, in the format of client_history(); extra keys (not part of what TLC sees):
+    reuse = label of the way the object is re-used, obj = ordinal of the object, typed, and stale = the reply would NOT
+    be accepted as an answer to what the same object contained at its previous exchange (so a client that looks at
+    anything but the current content of the object is noticed at this step)."""
+
+    def __init__(self, probe: ReplyProbe, *, direct: bool, timeout: float = 0.2) -> None:
+        self.probe = probe
+        self.direct = direct
+        self.tr = InProcTransport(probe)
+        self.client = UDSClient(self.tr, timeout=timeout, max_retry=0)
+        self.steps: list[dict[str, Any]] = []
+        self._ord: dict[int, int] = {}
+        self._keep: list[Any] = []  # the objects stay alive: ordinals by id() must not be recycled
+        self._last: dict[int, bytes] = {}
+
+    async def send(self, request: Any, reuse: str = "") -> dict[str, Any]:
+        pdu = bytes(request.pdu)
+        if id(request) not in self._ord:
+            self._ord[id(request)] = len(self._ord)
+            self._keep.append(request)
+        if self.direct:
+            st = await self.probe.exchange(pdu)
+            st["a"] = verdict_for_object(self.probe.reply, request)
+        else:
+            self.tr.last_step = None
+            exc: BaseException | None = None
+            resp = None
+            try:
+                resp = await self.client.request(request)
+            except Exception as e:  # noqa: BLE001
+                exc = e
+            st0 = self.tr.last_step
+            if st0 is None:
+                st = step_record(pdu, "unknown", b"", None, "", self.probe.state())
+                st["a"] = "client:" + classify(exc, resp)
+            else:
+                st = st0
+                st["a"] = classify(exc, resp)
+                if resp is not None and bytes(resp.pdu) != (self.probe.reply or b""):
+                    st["a"] = "client-returned-other-bytes"
+        prev = self._last.get(id(request))
+        st["reuse"] = reuse
+        st["obj"] = self._ord[id(request)]
+        st["typed"] = not isinstance(request, service.RawRequest)
+        st["stale"] = bool(prev is not None and prev != pdu and self.probe.reply is not None
+                           and verdict_for_object(self.probe.reply, service.RawRequest(prev)) != "ok")
+        self._last[id(request)] = pdu
+        self.steps.append(st)
+        return st
